@@ -607,6 +607,77 @@ CLAIMED['C03'] = dict(
     design_ref="DESIGN.md 5 C03",
 )
 
+CLAIMED['C02'] = dict(
+        technique="Coq proof over hand-written executable models of pycel.excelformula's parser (token pre-pass, "
+                  "shunting-yard main loop with argument counting, _build_ast: coq/Model/Syntax.v) and code emitter "
+                  "(coq/Model/Emit.v) on top of the operator/function tables regenerated from the source "
+                  "(Token.precedences, OperatorNode.op_map, FunctionNode.func_map via the translator's constant "
+                  "mechanism); Python's expression grammar for the emitted sub-language modelled as precedence-"
+                  "correct trees and cross-checked against CPython's ast.parse in both directions; "
+                  "extracted-model/implementation differential run on exact RPN / python_code strings; a reference "
+                  "evaluator (implementation's own operators per node of the intended tree) as oracle",
+        text="Machine-checked (Coq 8.16, 7 theorems in coq/Props/C02.v, all closed under the global context). "
+             "FULL, unbounded depth: C02_parse (for every well-formed concrete tree of Excel's grammar - literals, "
+             "references, any redundant parentheses, prefix -, postfix %, the 12 binary operators and the 3 "
+             "reference operators at their levels, left-associative, function calls with any number of possibly "
+             "omitted arguments, nested arbitrarily - pre-pass + shunting-yard + _build_ast applied to its token "
+             "string return exactly its meaning), C02_rpn (the RPN is its postfix form with the right argument "
+             "counts), C02_precedence_table (the levels the proofs use are the generated Token.precedences), "
+             "C02_op_map (generated op_map: ^ -> **, = -> ==, <> -> !=), C02_emit (for every expression of the "
+             "arithmetic fragment - literals, plain references, prefix -, postfix %, the 12 operators, ordinary "
+             "calls - and every parent context the emitted code is precedence-correct in Python's grammar and "
+             "denotes the Python tree that means e; unconditional since the fix db0afb2, which parenthesises a "
+             "prefix minus below ^), C02_text (every text literal - any characters, incl. quotes, backslashes, "
+             "LF, CR - compiles to a Python literal that decodes to exactly its characters; fix db52b98). "
+             "PARTIAL: C02_number_partial (integer literals without superfluous leading zeros denote their "
+             "value; missing: leading zeros - known finding C02-number-leading-zeros, refuted in "
+             "Refuted/C02_literals.v (007 is not a Python literal; advisory, extra target); decimals/exponents "
+             "correspondence only). Known finding C02-logical-lowercase (=true is tokenised as a name) is "
+             "outside the models (tokenizer) and reproduced by the oracle. "
+             "CORRESPONDENCE-ONLY: the openpyxl tokenizer and Tokenizer._items (white space, unary +, name "
+             "case), array constants, the emitter outside the arithmetic fragment (reference operators, "
+             "ROW/COLUMN, arrays), the uniqueness of Python's parse of the emitted text (PyWF <-> ast.parse, both "
+             "directions, on random Python trees and on every emitted code string), "
+             "evaluation (no C02_eval theorem: the oracle evaluates the intended tree with the implementation's "
+             "own excel_operator_operand_fixup per node). Outside the model: OFFSET/INDIRECT/SUBTOTAL emission, "
+             "references other than [sheet!]A1[:B2]. A quick run parses ~17k distinct formula texts on both "
+             "sides (every tree of depth <= 2 over 10 operators/prefix/postfix/3 leaves, sampled depth 3 and "
+             "depth <= 8, calls, omitted arguments, arrays; minimal and randomly over-parenthesised / spaced "
+             "renderings) with 0 divergences, cross-checks 6000 random Python trees and ~15k emitted code "
+             "strings against CPython, and evaluates ~21k (formula, environment) pairs against the reference "
+             "evaluator; the thorough tier is exhaustive to depth 3 (~10^5 trees).",
+        design_ref="DESIGN.md 5 C02",
+    )
+
+CLAIMED['C04'] = dict(
+        technique="Coq proof over a hand-written model of ExcelFormula.needed_addresses (token stream of the emitted "
+                  "code, the NAME ( STRING ) scan with the generated ADDR_FUNCS_NAMES, uniqueify: coq/Model/Scan.v) and "
+                  "of the read trace of the compiled code, on top of the C02 emitter model; extracted-model/"
+                  "implementation differential run (needed_addresses and python_code, exact); an oracle on real "
+                  "openpyxl workbooks compiled by ExcelCompiler with the two run-time read paths wrapped",
+        text="Machine-checked (Coq 8.16, 3 theorems in coq/Props/C04.v, closed under the global context). FULL for the "
+             "model, all expressions of any size: C04_cover (for every expression whose references are written - no "
+             "range-union between computed references, nothing outside the emitter model - every address the "
+             "compiled code can read through _C_/_R_ is among the scanned precedents, or is a range computed by "
+             "the intersection operator from scanned precedents only, hence contained in them by C11_intersection), "
+             "C04_scan_complete (the token scan finds every _C_/_R_/_REF_(\"..\") call node anywhere in the emitted "
+             "tree, also inside regions renamed to _REF_: ROW/COLUMN arguments, operands of reference operators), "
+             "C04_addr_names (the scanned names are the generated ADDR_FUNCS_NAMES). NOT PROVED (oracle only): "
+             "C04_edges / C04_influence of the design (dep_graph gets an edge for every declared precedent and for "
+             "every member of a range node; ancestors are a superset of the influencers) - graph construction "
+             "(_process_gen_graph, _make_cells) has no Coq model; the model's trace is the set of _C_/_R_ call "
+             "nodes (Python's strict evaluation), not an instrumented evaluator. CORRESPONDENCE: every quick run "
+             "compares Model/Scan.v needed and Model/Emit.v code with ExcelFormula.needed_addresses / python_code "
+             "on ~13k formula texts rich in references (plain, $, lower case, sheet-qualified, ranges, nested "
+             "intersections, ROW/COLUMN/INDEX/IF/SUM arguments), 0 divergences (~7% outside the emitter model: "
+             "multi-colon, whole-row/column references, arrays). ORACLE on the implementation: 250 PRNG workbooks "
+             "(2 sheets, 20 reference-form templates incl. defined names, multi-colon, union, ROW()/COLUMN(), CSE "
+             "members, chains) - every traced (formula cell, address read) pair is a declared precedent or lies "
+             "inside a declared range with a member -> range -> dependant path in dep_graph, every declared "
+             "precedent has its edge, and perturbing a non-ancestor input never changes a value.",
+        design_ref="DESIGN.md 5 C04",
+    )
+
 NOT_YET = "check not built yet in this round (planned: DESIGN.md section 7 lists the build order)"
 
 
